@@ -31,7 +31,7 @@ use std::sync::Arc;
 pub struct ProtocolSide {
     protocol: ProtocolName,
     event_tx: Sender<InnerNotificationEvent>,
-    notif_tx: Sender<(PeerId, BytesMut)>,
+    notif_tx: Sender<(PeerId, usize, BytesMut)>,
     shutdown_tx: Sender<PeerId>,
     /// Commands sent by the handle (`ForceClose`, ...).
     pub command_rx: Receiver<NotificationCommand>,
@@ -91,6 +91,7 @@ impl ProtocolSide {
 
         let (connection, shutdown) = Connection::new(
             peer,
+            sink.stream_id(),
             inbound,
             outbound,
             event_handle.clone(),
